@@ -60,9 +60,14 @@ type Universe struct {
 const ModelDSL = `model
   schema 1.1
 type user
+type group
+  relations
+    define member: [user]
+    define admin: [user]
 type doc
   relations
-    define viewer: [user, user with cx]
+    define viewer: [user, user with cx, group#member, group#member with cx, group#admin, group#admin with cx]
+    define editor: [user, user with cx, group#member, group#member with cx, group#admin, group#admin with cx]
 type folder
   relations
     define viewer: [user, user with cx]
